@@ -38,7 +38,7 @@ PROBES = [('p', 1), ('q', 1), ('t', 1), ('p', 2), ('sp', 2)]
 
 def plan(tier, seed):
     if tier == 'quick':
-        return {'n': 700, 'deadline': 150, 'case_timeout': 120,
+        return {'n': 520, 'deadline': 150, 'case_timeout': 120,
                 'floor': {'distinct_nontrivial': 400, 'multi_engine_runs': 900, 'suspended_query_runs': 120, 'threaded_runs': 25,
                           'solo_runs_in_fresh_interpreter': 1500, 'thread_switches_observed': 10000, 'schedules_round_robin': 300,
                           'schedules_random': 300, 'observations_compared': 30000}}
